@@ -65,6 +65,49 @@ func (e *Engine) verifyContract(c *Contract) (res *UnitResult) {
 	if c.Trusted {
 		return
 	}
+	if len(c.CallsOnly) > 0 {
+		var cpk []string
+		for k := range c.CallsOnly {
+			cpk = append(cpk, k)
+		}
+		sort.Strings(cpk)
+		nBad := 0
+		defer func() {
+			if nBad == 0 {
+				for _, k := range cpk {
+					u.oblige("calls-only:"+k+":respected", "frame", "of "+k+" the body calls only "+strings.Join(c.CallsOnly[k], ", "), (&Frame{x: x}).pos(fd.Pos()), "true", "true")
+				}
+			}
+		}()
+		ast.Inspect(fd.Body, func(n ast.Node) bool {
+			call, ok := n.(*ast.CallExpr)
+			if !ok {
+				return true
+			}
+			var callee *types.Func
+			switch f := ast.Unparen(call.Fun).(type) {
+			case *ast.Ident:
+				callee, _ = pkg.TypesInfo.Uses[f].(*types.Func)
+			case *ast.SelectorExpr:
+				callee, _ = pkg.TypesInfo.Uses[f.Sel].(*types.Func)
+			}
+			if callee == nil || callee.Pkg() == nil {
+				return true
+			}
+			allowed, listed := c.CallsOnly[callee.Pkg().Path()]
+			if !listed {
+				return true
+			}
+			for _, a := range allowed {
+				if a == callee.Name() {
+					return true
+				}
+			}
+			nBad++
+			u.oblige("calls-only:"+callee.Pkg().Path()+":"+callee.Name(), "frame", "of "+callee.Pkg().Path()+" the body calls only "+strings.Join(allowed, ", "), (&Frame{x: x}).pos(call.Pos()), "true", "false")
+			return true
+		})
+	}
 	sig := fn.Type().(*types.Signature)
 	fr := &Frame{x: x, pkg: pkg, info: pkg.TypesInfo, contract: c, sig: sig, safe: c.NoPanic, fnName: fn.FullName(),
 		specNames: map[string]Val{}, loopOrd: map[string]int{}, atOrd: map[string]int{}, closureOrd: map[string]int{},
@@ -284,7 +327,13 @@ func (e *Engine) verifyContract(c *Contract) (res *UnitResult) {
 			u.oblige("frame:"+k, "frame", "modifies clause does not list "+k, fr.pos(fd.Pos()), exit.pc, goal)
 		}
 		if x.havocAllSeen {
-			u.oblige("frame:*", "frame", "body havocs the whole heap (call without contract) but the contract has a modifies clause", fr.pos(fd.Pos()), exit.pc, "false")
+			// each place where the whole heap was havoc'd has to be unreachable under the requires
+			for _, hpc := range x.havocAllPCs {
+				u.oblige("frame:*", "frame", "body havocs the whole heap (call without contract) but the contract has a modifies clause", fr.pos(fd.Pos()), hpc, "false")
+			}
+			if len(x.havocAllPCs) == 0 {
+				u.oblige("frame:*", "frame", "body havocs the whole heap (call without contract) but the contract has a modifies clause", fr.pos(fd.Pos()), exit.pc, "false")
+			}
 		}
 	}
 	if len(x.assignedGlobals) > 0 {
